@@ -35,7 +35,8 @@ import (
 
 type vcliC09Params struct {
 	InitWin     int64   `json:"server_initial_window"`
-	MaxFrame    uint32  `json:"server_max_frame_size"` // 0: not sent
+	MaxFrame    uint32  `json:"server_max_frame_size"`         // 0: not sent
+	MaxStreams  uint32  `json:"server_max_concurrent_streams"` // 0: not sent
 	SettingsLag bool    `json:"requests_start_before_server_settings"`
 	DelayPct    int     `json:"failpoint_delay_pct"`
 	Bodies      []int64 `json:"body_sizes"`
@@ -99,6 +100,9 @@ func vcliC09Session(r *verifrt.R, c *verifrt.Case, fpMissing bool) {
 	p.InitWin = vcliC09Pick[int64](rng, 0, 1, 100, 16383, 16384, 65535, 65536, 1<<20, int64(1+rng.IntN(200000)))
 	p.MaxFrame = vcliC09Pick[uint32](rng, 0, 0, 16384, 16385, 65536, 1<<20, 1<<24-1)
 	p.SettingsLag = rng.IntN(3) == 0
+	// a stream limit below the number of uploads: requests wait for a slot while SETTINGS change
+	// the initial window they will start with
+	p.MaxStreams = vcliC09Pick[uint32](rng, 0, 0, 0, 1, 2, 3)
 	p.DelayPct = vcliC09Pick(rng, 0, 30, 100, 100)
 	nreq := 1 + rng.IntN(8)
 	budget := int64(600 << 10) // keep a quick session cheap: total bytes across bodies
@@ -122,7 +126,9 @@ func vcliC09Session(r *verifrt.R, c *verifrt.Case, fpMissing bool) {
 	p.DrainAfter = 20 + rng.IntN(150)
 	c.Describe(p)
 
-	tr := &Transport{}
+	// StrictMaxConcurrentStreams: a request beyond the limit waits for a slot on this connection
+	// (without it RoundTrip on a ClientConn at its limit fails at once with "not usable")
+	tr := &Transport{StrictMaxConcurrentStreams: p.MaxStreams != 0}
 	s := vcliNewSession(r, c, tr)
 	s.CheckFlow = true
 	hook := s.Delay.Delay
@@ -168,6 +174,9 @@ func vcliC09Session(r *verifrt.R, c *verifrt.Case, fpMissing bool) {
 		if p.MaxFrame != 0 {
 			ss = append(ss, h2ref.Setting{ID: h2ref.SettingMaxFrameSize, Val: p.MaxFrame})
 		}
+		if p.MaxStreams != 0 {
+			ss = append(ss, h2ref.Setting{ID: h2ref.SettingMaxConcurrentStreams, Val: p.MaxStreams})
+		}
 		sc.SendSettings(ss...)
 	}
 	if p.SettingsLag {
@@ -212,6 +221,12 @@ func vcliC09Session(r *verifrt.R, c *verifrt.Case, fpMissing bool) {
 			return
 		}
 		r.Event("quiescence_checks", 1)
+		cc.mu.Lock()
+		waiting := cc.pendingRequests
+		cc.mu.Unlock()
+		if waiting > 0 {
+			r.Event("quiescent_with_requests_waiting_for_a_stream_slot", 1)
+		}
 		for _, st := range active() {
 			rq := reqByTag[st.tag]
 			if rq.Finished() {
@@ -368,6 +383,11 @@ func vcliC09Session(r *verifrt.R, c *verifrt.Case, fpMissing bool) {
 			if s.Delay.sleepers.Load() > 0 {
 				r.Event("settings_sent_while_writer_delayed", 1)
 			}
+			cc.mu.Lock()
+			if cc.pendingRequests > 0 {
+				r.Event("settings_sent_while_requests_wait_for_a_stream_slot", 1)
+			}
+			cc.mu.Unlock()
 			sc.SendSettings(ss...)
 			r.Event("settings_sent", 1)
 		case a < 16:
